@@ -100,14 +100,17 @@ def nominees(tree: Tree, active, ev, gv):
     somewhere on an active chain (configuration not settled: the property does not apply)"""
     act = set(active)
     sel = []
+    # a configuration in which some eventless transition is enabled is not settled (an `always`
+    # chain was cut by the bound): the engine resumes it after any event; the property is silent there
+    for st in act:
+        for a in always_list(tree.cfg.get(st, {})):
+            if a is not None and eval_guard(transition_guard(a), act, gv):
+                return None
     for leaf in leaves(tree, act):
         cur = leaf
         winner = None
         while cur is not None and winner is None:
             ncfg = tree.cfg[cur]
-            for a in always_list(ncfg):
-                if a is not None and eval_guard(transition_guard(a), act, gv):
-                    return None
             on = {k: v for k, v in (ncfg.get("on") or {}).items()}
             blocked = False
             for key in matching_keys([k for k in on.keys() if k != ""], ev):
